@@ -539,6 +539,94 @@ def run(c):
                 viol.append(("E:" + tag, "relative energy error of %s outside its class: %.3g (dt), %.3g (dt/2), bound %.1g" % (tag, E1, E2, dE), rep))
     c.cov["integrator_runs"] = ran
 
+    # ======================================================================= search: TRACE pericentre switch, all three peri modes
+    # an eccentric planet triggers current_C (pericentre approach); PARTIAL_BS keeps the interaction/jump/kepler sequence
+    # during the approach, FULL_BS / FULL_IAS15 integrate the whole system: all three must stay in the same energy class
+    PERI = {0: "PARTIAL_BS", 1: "FULL_BS", 2: "FULL_IAS15"}
+    peri_hits = {}
+    for case in range(2 * T):
+        rng = c.rng.fork()
+        if case == 0:
+            e1, f1, mpl, eta, dtp = 0.9, 2.5, 1e-3, 0.1, 0.02
+        else:
+            e1, f1, mpl, eta, dtp = rng.uniform(0.8, 0.93), rng.uniform(1.5, 3.0), 10 ** (-rng.uniform(3, 4.5)), rng.choice([0.1, 0.2, 0.5]), rng.uniform(0.015, 0.03)
+        resm = {}
+        for pm in (0, 1, 2):
+            sim = rebound.Simulation()
+            sim.add(m=1.)
+            sim.add(m=mpl, a=1.0, e=e1, inc=0.1, omega=0.3, f=f1)
+            sim.add(m=5e-4, a=3.0, e=0.1, inc=0.05, Omega=1.0, f=1.0)
+            sim.move_to_com()
+            for i in range(sim.N):
+                sim.particles[i].vx += 0.01; sim.particles[i].vy -= 0.02; sim.particles[i].vz += 0.005
+            sim.integrator = "trace"
+            sim.dt = dtp
+            sim.ri_trace.peri_mode = pm
+            sim.ri_trace.peri_crit_eta = eta
+            i0 = invariants(raw(sim), 1.0)
+            t0 = sim.t
+            nperi = 0
+            wE = wL = wP = wR = 0.0
+            sig = None
+            nst = int((120.0 if c.thorough else 60.0) / dtp)
+            try:
+                for st_ in range(nst):
+                    sim.steps(1)
+                    nperi += 1 if sim.ri_trace._current_C else 0
+                    if st_ % 10 == 9:
+                        iv = invariants(raw(sim), 1.0)
+                        tt = sim.t - t0
+                        wE = max(wE, abs(iv["E"] - i0["E"]) / i0["Escale"])
+                        wL = max(wL, norm([a - b for a, b in zip(iv["L"], i0["L"])]) / i0["Lscale"])
+                        wP = max(wP, norm([a - b for a, b in zip(iv["P"], i0["P"])]) / i0["Pscale"])
+                        Rs = math.fsum(abs(p[0]) * norm(p[1:4]) for p in raw(sim)) + i0["Pscale"] * abs(tt)
+                        dRv = [(a - b - pp * tt) / i0["M"] for a, b, pp in zip(iv["R"], i0["R"], i0["P"])]
+                        r_ = norm(dRv) * i0["M"] / Rs
+                        if r_ > wR:
+                            wR = r_
+                            sig = rejected_step_signature(dRv, [pp / i0["M"] for pp in i0["P"]], dtp) if r_ > 1e-9 else None
+            except Exception as ex:
+                viol.append(("crash:trace-peri:%s" % PERI[pm], "TRACE peri_mode=%s raised %r" % (PERI[pm], ex), dict(e=e1, f=f1, m=mpl, eta=eta, dt=dtp)))
+                continue
+            resm[pm] = (nperi, wE, wL, wP, wR)
+            peri_hits[PERI[pm]] = peri_hits.get(PERI[pm], 0) + nperi
+            c.count(("trace-peri", pm, case), nontrivial=nperi > 0)
+            hist["trace-peri"] = hist.get("trace-peri", 0) + 1
+            for nm_, v in (("dE", wE), ("dL", wL), ("dP", wP), ("dCOM", wR)):
+                worst["trace-peri:%s:%s" % (PERI[pm], nm_)] = max(worst.get("trace-peri:%s:%s" % (PERI[pm], nm_), 0.0), v)
+            rep = dict(peri_mode=PERI[pm], e=e1, f=f1, m_planet=mpl, peri_crit_eta=eta, dt=dtp, steps=nst, pericentre_steps=nperi, dE=wE, dL=wL, dP=wP, dCOM=wR)
+            if wE > 1e-4:
+                viol.append(("E:trace-peri:%s" % PERI[pm], "TRACE peri_mode=%s with pericentre passages (%d flagged steps): relative energy error %.3g outside the accuracy class (1e-4)"
+                             % (PERI[pm], nperi, wE), rep))
+            if wL > 1e-9:
+                viol.append(("L:trace-peri:%s" % PERI[pm], "TRACE peri_mode=%s with pericentre passages: dL/L = %.3g" % (PERI[pm], wL), rep))
+            if wP > 1e-10:
+                viol.append(("P:trace-peri:%s" % PERI[pm], "TRACE peri_mode=%s with pericentre passages: dP/P = %.3g" % (PERI[pm], wP), rep))
+            if wR > 1e-9:
+                Vc_ = [pp / i0["M"] for pp in i0["P"]]
+                kpar = sum(a * b for a, b in zip(dRv, Vc_)) / sum(b * b for b in Vc_)
+                perp = norm([a - kpar * b for a, b in zip(dRv, Vc_)])
+                if sig is not None:
+                    viol.append(("FC04a:trace-rejected-step-com", "TRACE: centre of mass jumps by %d x dt x V_com (rejected steps), peri_mode=%s" % (sig, PERI[pm]), rep))
+                elif pm == 1 and nperi > 0 and kpar > 0 and perp <= 1e-6 * norm(dRv):
+                    # finding FC04b: the whole system was integrated for longer than the step (COM residual = +tau * V_com)
+                    rep["extra_time_integrated"] = kpar
+                    viol.append(("FC04b:trace-fullbs-overshoot", "TRACE peri_mode=FULL_BS: the pericentre BS integration overshoots the end of the step; the system was advanced by an extra %.3g time units (%.2f dt) over %d flagged steps"
+                                 % (kpar, kpar / dtp, nperi), rep))
+                else:
+                    viol.append(("COM:trace-peri:%s" % PERI[pm], "TRACE peri_mode=%s with pericentre passages: centre of mass off uniform motion by %.3g" % (PERI[pm], wR), rep))
+        if len(resm) == 3:
+            lo = min(v[1] for v in resm.values())
+            for pm, v in resm.items():
+                worst["trace-peri:%s:dE/min" % PERI[pm]] = max(worst.get("trace-peri:%s:dE/min" % PERI[pm], 0.0), v[1] / lo if lo > 0 else 0.0)
+                if v[0] > 0 and lo > 0 and v[1] > 100.0 * lo and v[1] > 1e-6:
+                    viol.append(("E:trace-peri-ratio:%s" % PERI[pm], "TRACE peri_mode=%s: energy error %.3g is %.0f times that of the best pericentre prescription on the same system"
+                                 % (PERI[pm], v[1], v[1] / lo), dict(e=e1, f=f1, m_planet=mpl, peri_crit_eta=eta, dt=dtp, results={PERI[k]: resm[k] for k in resm})))
+    c.cov["trace_pericentre_flagged_steps"] = peri_hits
+    for nm_ in PERI.values():
+        if peri_hits.get(nm_, 0) == 0:
+            c.broken.append("coverage: no pericentre-flagged TRACE step occurred with peri_mode=%s (the pericentre code paths were not exercised)" % nm_)
+
     # ======================================================================= search: merging collisions conserve m, P, COM
     nm = 0
     for case in range(30 * T):
